@@ -31,7 +31,7 @@ Definition permits (c : int_constraint) (z : Z) : Prop :=
   match c with
   | CRange lo hi ext sext => ext = true \/ sext = true \/ (ge_opt lo z /\ le_opt z hi)
   | CSingle v ext sext => ext = true \/ sext = true \/ z = v
-  | COther => True
+  | COther _ => True
   end.
 
 Definition finite_nonext (c : int_constraint) : Prop :=
